@@ -177,6 +177,83 @@ def grid_cases(tier):
     return out
 
 
+def _score_patterns(n, rng=None):
+    """Score vectors of length n from the pattern classes: all zero; one non-zero; k non-zero equal; one huge + small ones; all equal.
+    Exhaustive over the alphabet {0, 1, 2, 2^20} when `rng` is None, otherwise one random member per class with random values."""
+    big = float(2 ** 20)
+    if rng is None:
+        pats = [[0.0] * n]
+        for v in (1.0, big):
+            pats.append([v] + [0.0] * (n - 1))
+            if n > 1:
+                pats.append([0.0] * (n - 1) + [v])
+        for k in range(2, n):
+            pats.append([1.0] * k + [0.0] * (n - k))
+            pats.append([0.0] * (n - k) + [2.0] * k)
+        if n > 1:
+            pats.append([big] + [1.0] * (n - 1))
+            pats.append([1.0] * (n - 1) + [big])
+            pats.append([big] + [2.0] + [0.0] * (n - 2))
+            pats.append([big] + [(1.0 if i % 2 else 0.0) for i in range(n - 1)])
+            pats.append([big, big] + [1.0] * (n - 2))
+        pats.append([1.0] * n)
+        pats.append([2.0] * n)
+        pats.append([big] * n)
+        seen, out = set(), []
+        for q in pats:
+            if tuple(q) not in seen:
+                seen.add(tuple(q))
+                out.append(q)
+        return out
+    small = lambda: float(rng.choice([1, 1, 2, 3, 5]))  # noqa: E731
+    huge = float(2 ** rng.randint(10, 40))
+    k = rng.randint(1, n)
+    cls = rng.choice(["zero", "one", "kequal", "huge", "equal", "kmixed"])
+    if cls == "zero":
+        q = [0.0] * n
+    elif cls == "one":
+        q = [rng.choice([small(), huge])] + [0.0] * (n - 1)
+    elif cls == "kequal":
+        q = [small()] * k + [0.0] * (n - k)
+    elif cls == "huge":
+        q = [huge] * rng.randint(1, max(1, min(3, n - 1))) 
+        q += [rng.choice([0.0, small()]) for _ in range(n - len(q))]
+    elif cls == "equal":
+        q = [rng.choice([small(), huge])] * n
+    else:
+        q = [small() for _ in range(k)] + [0.0] * (n - k)
+    q = q[:n]
+    rng.shuffle(q)
+    return [q]
+
+
+def family_cases():
+    """EXHAUSTIVE family (both tiers): one group of n axes of dimension d, base rank k, tail_rho scores in the pattern classes of
+    `_score_patterns`: d 2..6 x k 1..d x n 1..6, plus larger groups n in (8, 10, 12) with d in (8, 16)."""
+    out = []
+    cid = 0
+    combos = [(d, k, n) for d in range(2, 7) for k in range(1, d + 1) for n in range(1, 7)]
+    combos += [(d, k, n) for d in (8, 16) for k in (1, 2, 3, 4, 6, d - 1, d) for n in (8, 10, 12)]
+    for d, k, n in combos:
+        for sc in _score_patterns(n):
+            cid += 1
+            out.append(dict(simple_case(f"fam{cid}:d{d}k{k}n{n}", cid % 3 != 0, [d] * n, sc, k), profile="family"))
+    return out
+
+
+def widened_cases(rng, count):
+    """Random members of the same families over a wider range (used only after a lean / translate / correspondence stage failed:
+    the model no longer describes the code, so look harder for an input on which the property itself fails)."""
+    out = []
+    for i in range(count):
+        d = rng.choice([2, 3, 4, 5, 6, 8, 12, 16, 33])
+        k = rng.randint(1, d + 1)
+        n = rng.choice([1, 2, 3, 4, 5, 6, 8, 10, 12, 16])
+        sc = _score_patterns(n, rng)[0]
+        out.append(dict(simple_case(f"wide{i}:d{d}k{k}n{n}", rng.random() < 0.7, [d] * n, sc, k), profile="widened"))
+    return out
+
+
 def corpus_cases():
     out = []
     d = os.path.join(kit.ROOT, "corpus", "C17")
@@ -1053,11 +1130,14 @@ def run(ctx):
     cases = corpus_cases()
     ncorpus = len(cases)
     cases += grid_cases(ctx.tier)
+    cases += family_cases()
     nrand = 1600 if ctx.tier == "quick" else 9000
     for i in range(nrand):
         cases.append(gen_case(rng, f"r{ctx.seed}-{i}"))
     ctx.cov["rule"] = ("corpus witnesses first; exhaustive grid (one group of 2-3[4] axes, dims, base ranks, score multisets over a small "
-                       "alphabet, tail_rho, alternating float32/float64); seeded random layer sets (1..8 layers, nested paths, 1..3 axes, "
+                       "alphabet, tail_rho, alternating float32/float64); exhaustive pattern family (one group: dims 2..6 x base rank 1..dim x size 1..6, "
+                       "plus sizes 8/10/12 with dims 8/16; scores over {0,1,2,2^20}: all zero / one non-zero / k equal non-zero / huge + small / all equal); "
+                       "after a failed lean/translate/correspondence stage a x10 random search in these families; seeded random layer sets (1..8 layers, nested paths, 1..3 axes, "
                        "dims from a pool, 5 scoring rules, running average, base rank 0..40, score profiles generic/smallint/tied/"
                        "zero_mix/all_zero/disparate/extreme/mixed). Non-trivial: base rank >= 2 and some group with >= 2 axes and a "
                        "non-zero score; distinct by (dtype, rule, rank, grouping, score bit patterns). Tree stream: seeded nested state trees "
@@ -1074,6 +1154,14 @@ def run(ctx):
     ]
     pairs = execute(ctx, cases, stats)
     tree_stage(ctx, random.Random(ctx.seed * 7919 + 1717), stats)
+    if ctx.stage_failures and not ctx.violations:
+        # the model / bridge no longer describes the code and no failing input is known yet: widen the search in the
+        # pattern families (x10) through the direct oracle before the run concludes "no failing input found"
+        nwide = 20000 if ctx.tier == "quick" else 60000
+        stats["widened_search_cases"] = nwide
+        ctx.notes.append(f"a lean/translate/const/correspondence stage failed without a failing input: widened search over {nwide} random "
+                         "instances of the pattern families (dims 2..33, base rank 1..dim+1, groups of 1..16)")
+        execute(ctx, widened_cases(random.Random(ctx.seed * 31337 + 4), nwide), stats)
     ctx.cov["corpus_cases"] = ncorpus
     ctx.cov["stats"] = dict(stats)
     for c, o in pairs[:: max(1, len(pairs) // 6)]:
